@@ -28,6 +28,8 @@ NS = dict(office="urn:oasis:names:tc:opendocument:xmlns:office:1.0", text="urn:o
           table="urn:oasis:names:tc:opendocument:xmlns:table:1.0", meta="urn:oasis:names:tc:opendocument:xmlns:meta:1.0")
 Q = lambda p, n: "{%s}%s" % (NS[p], n)
 US = timedelta(microseconds=1)
+import datetime as _dtmod
+EVAL_NS = dict(datetime=_dtmod, Decimal=Decimal)       # values are stored in replays / corpus as their repr
 
 
 # ---------------------------------------------------------------- abstraction (independent of odfdo's getters)
@@ -330,10 +332,10 @@ def run(tier, seed, replay=None):
     corpus = [json.load(open(f))["case"] for f in sorted((common.ROOT / "corpus" / PROP).glob("*.json"))]
     if replay:
         rp = json.load(open(replay))["case"]
-        vals = [eval(rp["value"], dict(date=date, datetime=datetime, timedelta=timedelta, timezone=timezone, Decimal=Decimal))]
+        vals = [eval(rp["value"], EVAL_NS)]
         only = rp["carrier"]
     else:
-        ev = lambda c: eval(c["value"], dict(date=date, datetime=datetime, timedelta=timedelta, timezone=timezone, Decimal=Decimal))
+        ev = lambda c: eval(c["value"], EVAL_NS)
         vals = [ev(c) for c in corpus] + boundary_values(tier, rng)
         only = None
     driven = []
